@@ -261,6 +261,56 @@ theorem system_design_shape (b : Bundle) (fuel : Nat) (base : String) (args : Na
         obtain ⟨rfl, rfl, rfl⟩ := h
         exact ⟨d0, sa, rfl, rfl, rfl⟩
 
+/-! ### the whole tree -/
+
+/-- **orientation, for whole systems**: for every system the compile path loads (any depth below it), the
+    specification `Denote` processes the same statements successfully and the two signal tables agree
+    (`TablesAgree`): the same signals in the same order with the same lengths, and for every signal the
+    specification's member regions are, entry by entry, `entryRegion` of the compile path's entries — the
+    nucleotides of the bound port (a component's unstarred sequence under the instance prefix, or a sub-system's
+    signal domain), reverse-complemented exactly when the entry's flag `wc = (binding star ≠ declaration star)` is
+    set.  Parametric in the component-level hypothesis `CompAccept` -/
+theorem signal_orientation (hc : CompAccept) (b : Bundle) (fuel : Nat) (includes : List String) (stmts : List SStmt)
+    (newPath name pfx : String) (anon : Nat) (st : SysSt) (a1 : Nat)
+    (hs : loadStmts b fuel includes stmts (.mk newPath name pfx [] [] [] [] [] []) anon = .ok (st, a1)) :
+    ∃ d1 sa, Denote.denoteSysStmts b fuel includes newPath pfx stmts [] Design.empty {} anon = .ok (d1, sa, a1) ∧
+      sa.len = st.lengths ∧ sa.order = st.lengths.map (·.1) ∧ st.signals.map (·.1) = st.lengths.map (·.1) ∧
+      sa.members = st.signals.map (fun x => (x.1, x.2.map (entryRegion pfx ((st.lengths.lookup x.1).getD 0)))) := by
+  obtain ⟨d1, sa, hd, ht⟩ := sys_tables_agree hc b fuel includes stmts newPath name pfx anon st a1 hs
+  exact ⟨d1, sa, hd, ht.len, ht.order, ht.keys, ht.members⟩
+
+/-- the region of an entry, spelled out: `rc X` iff `wc`, where `X` is what the port denotes unstarred -/
+theorem entry_region_rule (pfx : String) (len : Nat) (e : SigEntry) :
+    entryRegion pfx len e = (if e.wc then rc (entryNucs pfx len e) else entryNucs pfx len e) ∧
+    entryNucs pfx len e = (match e.port with
+      | .seq _ bases => basesNucs (pfx ++ e.comp ++ "-") bases
+      | .sig n => fwd (pfx ++ e.comp ++ "-" ++ n) len) :=
+  ⟨rfl, rfl⟩
+
+/-- **system_preserves_design, PARTIAL.**  Proved: by induction on the instance tree, whatever `load_file` accepts
+    (components, systems, systems of systems) the specification `denoteFile` accepts too, consuming the same
+    anonymous-sequence numbers, and the two agree on the ports of the instance — what each port denotes
+    (`portNucs`), the star of its declaration, its length, whether it is a dummy; together with `signal_orientation`
+    above (agreement of the signal tables, member by member, at every level) this is the specification half of the
+    requested statement.
+    It is parametric in the component-level hypothesis `CompAccept` (`Comp.load` accepts ⇒ `denoteComp` accepts
+    with the same counter and ports), which is a consequence of the component theorem C01
+    (`compile_preserves_design`) and is to be discharged by it.
+    MISSING (not proved here): the emitted-PIL half — that `Pil.load tbl (Emit.instStmts inst) {}` succeeds and that
+    `Pil.denote` of the result is the design `d` (up to renaming of anonymous domains).  That needs a frame lemma
+    for `Pil.load` over appended statement lists with disjoint instance prefixes (available ingredients:
+    `instance_prefixed`, `instances_disjoint`), additivity of `Pil.denote`, and the loading of the
+    `sequence`/`equal` statements of each signal (`pil_member_region`, `equal_member_star` give the per-member
+    facts).  The harness check (oracle `canon(Pil.denote(real .pil)) = canon(denoteTop(source))` on generated
+    systems up to depth 4) covers that half by testing. -/
+theorem system_preserves_design_partial (hc : CompAccept) (b : Bundle) (fuel : Nat) (base : String) (args : Nat)
+    (argKey pfx path : String) (includes : List String) (anon : Nat) (inst : Inst) (a' : Nat)
+    (h : loadFile b fuel base args argKey pfx path includes anon = .ok (inst, a')) :
+    ∃ d ports, Denote.denoteFile b fuel base args argKey pfx path includes anon = .ok (d, ports, a') ∧
+      PortsAgree pfx (instPorts inst) ports ∧ DesignP (HasPfx pfx) d :=
+  let ⟨d, ports, hd, hp⟩ := wiring_agrees hc b fuel base args argKey pfx path includes anon inst a' h
+  ⟨d, ports, hd, hp, (denoteFile_P b fuel base args argKey pfx path includes anon d ports a' hd).1⟩
+
 /-! ### non-vacuity -/
 
 /-- binding `g1 : s0* -> …` to a port declared `a` (no star): the entry has `wc = true`, a second instance
@@ -287,5 +337,13 @@ example :
         [([⟨⟨"g1-a", 0⟩, false⟩, ⟨⟨"g1-a", 1⟩, false⟩], false), ([⟨⟨"g2-b", 0⟩, false⟩, ⟨⟨"g2-b", 1⟩, false⟩], true)] with
      | .ok sa => sa.members == [("s0", [[⟨⟨"g1-a", 1⟩, true⟩, ⟨⟨"g1-a", 0⟩, true⟩], [⟨⟨"g2-b", 0⟩, false⟩, ⟨⟨"g2-b", 1⟩, false⟩]])]
      | .error _ => false) = true := by decide
+
+
+/-- the region of a starred entry of signal `s0` (length 2) bound to port `a` of instance `g1` -/
+example : entryRegion "" 2 ⟨.seq ⟨"a", false, 2, false⟩ [⟨"a", false, 2⟩], "g1", true⟩
+    = [⟨⟨"g1-a", 1⟩, true⟩, ⟨⟨"g1-a", 0⟩, true⟩] := by decide
+
+/-- … and of an unstarred entry pointing at signal `x` of the sub-system instance `g2` -/
+example : entryRegion "top-" 2 ⟨.sig "x", "g2", false⟩ = [⟨⟨"top-g2-x", 0⟩, false⟩, ⟨⟨"top-g2-x", 1⟩, false⟩] := by decide
 
 end Pepper.C02
